@@ -43,6 +43,8 @@ def judge(agg, site, case, thunk, method, ex, lcols, rcols, lkeys, rkeys, h=None
     except SerifValueError as e:
         res, raised = None, e
     except Exception as e:
+        if type(e).__name__ == "_NotJudged":
+            raise
         agg.violation(V(site, "raises-" + type(e).__name__, case, None, repr(e)[:100]))
         return None
     if [obs(o) for o in observers] != before:
@@ -365,12 +367,66 @@ def fam_dupkeys(agg, h, methods, all_expects):
                           method, ex, lcols, rcols, lkeys, rkeys, h, (L, R))
 
 
+def fam_typednone(agg, h, methods, all_expects):
+    """a left (or right) table of one or two rows whose key is None although the key COLUMN is typed - it was cut out of a longer
+    table (slice, mask) or masked down; None is a key like any other and pairs with the None keys of the other side"""
+    from serif import Vector, Table
+    long_keys = [1, None, 2, None, 3]
+    other_sets = [[None, 1], [None, None, 2], [1, 2], [None], [3, None, 3]]
+    cuts = [("slice-1", lambda t: t[1:2], [None]), ("slice-2", lambda t: t[1:3], [None, 2]), ("mask-1", lambda t: t[[False, False, False, True, False]], [None]),
+            ("mask-2", lambda t: t[[False, True, False, True, False]], [None, None]), ("slice-last", lambda t: t[4:5], [3])]
+    for cname, cut, small_keys in cuts:
+        for other in other_sets:
+            for small_side in ("L", "R"):
+                for nk in (1, 2):
+                    agg.states += 1; agg.nontrivial += 1
+                    for method in methods:
+                        for ex in (VALID if all_expects else ["many_to_many"]):
+                            def mk_long(pname, base):
+                                cols_ = [("k0", list(long_keys))] + ([("k1", [7] * len(long_keys))] if nk == 2 else []) + [(pname, [base + i for i in range(len(long_keys))])]
+                                return tbl(cols_)
+                            try:
+                                if small_side == "L":
+                                    L = cut(mk_long("lp", 100))
+                                    rcols = [("k0", list(other))] + ([("k1", [7] * len(other))] if nk == 2 else []) + [("rp", [200 + i for i in range(len(other))])]
+                                    R = tbl(rcols)
+                                    lcols = [(c._name, list(c._underlying)) for c in L._underlying]
+                                else:
+                                    R = cut(mk_long("rp", 200))
+                                    lcols = [("k0", list(other))] + ([("k1", [7] * len(other))] if nk == 2 else []) + [("lp", [100 + i for i in range(len(other))])]
+                                    L = tbl(lcols)
+                                    rcols = [(c._name, list(c._underlying)) for c in R._underlying]
+                            except Exception as e:
+                                agg.skipped["typednone-setup-" + type(e).__name__] += 1
+                                continue
+                            lk = [tuple(c[1][i] for c in lcols[:nk]) for i in range(len(lcols[0][1]))]
+                            rk = [tuple(c[1][i] for c in rcols[:nk]) for i in range(len(rcols[0][1]))]
+                            on = ["k0", "k1"][:nk] if nk == 2 else "k0"
+                            case = {"family": "typed key column holding only None after a cut", "cut": cname, "small_side": small_side, "small_keys": small_keys, "other_keys": other,
+                                    "key_columns": nk, "method": method, "expect": ex}
+                            def run():
+                                try:
+                                    return getattr(L, method)(R, left_on=on, right_on=on, expect=ex)
+                                except Exception as e:
+                                    if "mismatched dtypes" in str(e):
+                                        raise _NotJudged()
+                                    raise
+                            try:
+                                judge(agg, f"{method}.typednone", case, run, method, ex, lcols, rcols, lk, rk, h, (L, R))
+                            except _NotJudged:
+                                agg.skipped["dtype-validation-refuses"] += 1
+
+
+class _NotJudged(Exception):
+    pass
+
+
 class _S(str):
     pass
 
 
 FAMILIES = {"skew": fam_skew, "args": fam_args, "dupnames": fam_dupnames, "twice": fam_twice, "self": fam_self, "expectstr": fam_expectstr,
-            "namesake": fam_namesake, "dupkeys": fam_dupkeys}
+            "namesake": fam_namesake, "dupkeys": fam_dupkeys, "typednone": fam_typednone}
 
 
 def run_extra_unit(unit, methods, all_expects=False):
